@@ -372,6 +372,8 @@ func areaCff(c *Ctx) {
 	c13GenWidths(c, n/8+1)
 	c13GenEncoding(c, n/6+1)
 	c13GenStrings(c, n/20+1)
+	c13GenEncodingBoundary(c)
+	c13GenOffsetSweep(c)
 }
 
 // mutate returns a damaged copy of data (truncation, bit flip, byte overwrite, count inflation).
@@ -1930,6 +1932,29 @@ func init() {
 		})
 	}
 	ops["cff.encoding.spec"] = c13Want
+	// the property on the real code alone: readEncoding(encodeEncoding(enc)) = enc (the Lean side echoes enc)
+	ops["cff.encoding.rt"] = func(f Fields) string {
+		return c13Guard(func() string {
+			var enc []glyph.ID
+			for _, g := range f.Ints("enc") {
+				enc = append(enc, glyph.ID(g))
+			}
+			names := c13Int32s(f.Ints("names"))
+			out, err := cff.VerifEncodeEncoding(enc, names)
+			if err != nil {
+				return "write-" + c13Err(err)
+			}
+			res, err := cff.VerifReadEncoding(out, names)
+			if err != nil {
+				return "read-" + c13Err(err)
+			}
+			back := make([]int, len(res))
+			for i, g := range res {
+				back[i] = int(g)
+			}
+			return "ok:" + ints(back)
+		})
+	}
 }
 
 // c13RandEncoding builds an encoding vector satisfying the documented rule: the encoded glyphs
@@ -2402,5 +2427,300 @@ func c13PredefinedCharsetCases(c *Ctx, file []byte) {
 		m[idx] = byte(139 + k)
 		res := c.Case(Verdict, "cff.file.read", "file="+hx(m)+" w=1", true)
 		c.Stat("predefined_charset", name+": "+c13OutcomeClass(res))
+	}
+}
+
+// ---------------------------------------------------------------------------------------
+// boundary families (seeded changes C13-m2, C13-m3)
+
+// c13RunsEncoding: glyphs 1..nEnc get one code each; in glyph order they form exactly `ranges`
+// runs of consecutive codes (runs are laid out in code space in reverse or shuffled order, never
+// continuing the previous run), the codes used start at `base`.
+func c13RunsEncoding(r *Rng, nEnc, ranges, base int, shuffled bool) []int {
+	if ranges > nEnc {
+		ranges = nEnc
+	}
+	if ranges < 1 {
+		ranges = 1
+	}
+	// run lengths: all 1, the remainder spread at random
+	lens := make([]int, ranges)
+	for i := range lens {
+		lens[i] = 1
+	}
+	for k := nEnc - ranges; k > 0; k-- {
+		lens[r.Intn(ranges)]++
+	}
+	order := make([]int, ranges) // order[j] = run placed j-th in code space
+	for i := range order {
+		order[i] = ranges - 1 - i
+	}
+	if shuffled && ranges > 2 {
+		for try := 0; try < 50; try++ {
+			for i := ranges - 1; i > 0; i-- {
+				j := r.Intn(i + 1)
+				order[i], order[j] = order[j], order[i]
+			}
+			ok := true
+			for j := 0; j+1 < ranges; j++ {
+				if order[j+1] == order[j]+1 { // run k+1 directly after run k: they would merge
+					ok = false
+				}
+			}
+			if ok {
+				break
+			}
+			for i := range order {
+				order[i] = ranges - 1 - i
+			}
+		}
+	}
+	start := make([]int, ranges)
+	code := base
+	for _, run := range order {
+		start[run] = code
+		code += lens[run]
+	}
+	enc := make([]int, 256)
+	g := 1
+	for run := 0; run < ranges; run++ {
+		for j := 0; j < lens[run]; j++ {
+			enc[start[run]+j] = g
+			g++
+		}
+	}
+	return enc
+}
+
+// refused: more than 255 primary ranges for 256 encoded glyphs - neither format can hold the vector and
+// encodeEncoding returns an error (documented limit of C13_encoding_roundtrip); only the verdict is compared
+func c13EncodingCases(c *Ctx, enc []int, names []int, label string, refused bool) {
+	r := c.Rng
+	line := fmt.Sprintf("enc=%s names=%s", ints(enc), ints(names))
+	out := c.Case(Verdict, "cff.encoding.enc", line, true)
+	rt := ""
+	if !refused {
+		rt = c.Case(Direct, "cff.encoding.rt", line, true)
+	}
+	if strings.HasPrefix(out, "ok:") {
+		data := c13HexMust(out[3:])
+		c.Stat("encoding_boundary", fmt.Sprintf("%s format %d", label, data[0]&127))
+		if rt == "ok:"+ints(enc) {
+			c.Stat("encoding_boundary_rt", "same")
+		} else {
+			c.Stat("encoding_boundary_rt", "DIFFERENT")
+		}
+		file := append(append([]byte(nil), data...), r.Bytes(r.Intn(3))...)
+		c.Case(Verdict, "cff.encoding.read", fmt.Sprintf("data=%s charset=%s", hx(file), ints(names)), true)
+		c.Case(Direct, "cff.encoding.spec", fmt.Sprintf("data=%s charset=%s want=%s", hx(file), ints(names), ints(enc)), true)
+		m := c13Mutate(r, file)
+		c.Case(Verdict, "cff.encoding.read", fmt.Sprintf("data=%s charset=%s", hx(m), ints(names)), true)
+	} else {
+		c.Stat("encoding_boundary", label+" "+c13OutcomeClass(out))
+	}
+}
+
+// encodings using 250..256 codes: contiguous, scrambled and partly ranged glyph orders with
+// range counts around the format 0 / format 1 break-even (127/128/129) and the 255-segment limit
+func c13GenEncodingBoundary(c *Ctx) {
+	r := c.Rng
+	rangeCounts := []int{1, 2, 3, 64, 100, 124, 125, 126, 127, 128, 129, 130, 131, 160, 200, 250, 254, 255, 256}
+	for nEnc := 250; nEnc <= 256; nEnc++ {
+		names := []int{0}
+		for s := 1; s <= nEnc+r.Range(0, 2); s++ {
+			names = append(names, 390+s)
+		}
+		for _, rc := range rangeCounts {
+			if rc > nEnc {
+				continue
+			}
+			if c.Tier != "thorough" && nEnc < 255 && !(rc == 1 || rc >= 124 && rc <= 131 || rc >= 250) && !r.Chance(1, 3) {
+				continue
+			}
+			base := r.Range(0, 256-nEnc)
+			enc := c13RunsEncoding(r, nEnc, rc, base, r.Bool())
+			label := fmt.Sprintf("codes=%d ranges=%s", nEnc, bucket(rc))
+			// supplements: multiply-encoded glyphs on the free codes
+			if nEnc < 256 && r.Bool() {
+				k := 0
+				for code := range enc {
+					if enc[code] == 0 && r.Chance(2, 3) {
+						enc[code] = r.Range(1, nEnc)
+						k++
+					}
+				}
+				if k > 0 {
+					label += " +sup"
+				}
+			}
+			c13EncodingCases(c, enc, names, label, rc > 255)
+		}
+	}
+	// whole fonts: 255 and 256 encoded glyphs through Write and Read
+	for _, nEnc := range []int{255, 256} {
+		for _, rc := range []int{1, 127, 128, 129, 200, 255} {
+			f := &c13Font{name: "EncB", ulPos: -100, ulThick: 50, full: true, fm: [6]float64{0.001, 0, 0, 0.001, 0, 0}}
+			ng := nEnc + 1 + r.Range(0, 1)
+			for g := 0; g < ng; g++ {
+				nm := fmt.Sprintf("e%03d", g)
+				if g == 0 {
+					nm = ".notdef"
+				}
+				f.names = append(f.names, nm)
+				f.widths = append(f.widths, float64(500+g%3*100))
+			}
+			f.fds = make([]int, ng)
+			f.privs = []c13Priv{{bs: 7, bf: 1, bscale: 0.039625}}
+			f.encoding = c13RunsEncoding(r, nEnc, rc, 256-nEnc, r.Bool())
+			c.Stat("file_encoding", fmt.Sprintf("boundary codes=%d ranges=%d", nEnc, rc))
+			c13EmitFont(c, f, true)
+		}
+	}
+}
+
+// c13EmitFont: the round trip on the real code (D), the model of Write (V) and, for small files, the
+// spec reader (D) and the model of Read (V)
+func c13EmitFont(c *Ctx, f *c13Font, readers bool) {
+	desc := f.String()
+	got := c.Case(Direct, "cff.file.rt", "font="+desc, true)
+	if got == desc {
+		c.Stat("file_roundtrip", "same")
+	} else {
+		c.Stat("file_roundtrip", "DIFFERENT")
+	}
+	if cs, dw, nw, err := cff.VerifEncodeCharStrings(f.build()); err == nil {
+		line := fmt.Sprintf("font=%s cs=%s dw=%d nw=%d", desc, c13ShowBlobs(cs), int32(dw), int32(nw))
+		res := c.Case(Verdict, "cff.file.model", line, true)
+		c.Stat("file_model", c13OutcomeClass(res))
+	}
+	if !readers {
+		return
+	}
+	out := Exec("cff.file.write font=" + desc)
+	if strings.HasPrefix(out, "ok:") {
+		c.Case(Direct, "cff.file.spec", "file="+out[3:]+" want="+desc, true)
+		if len(out) < 6000 {
+			c13ReadCases(c, c13HexMust(out[3:]), 1)
+		}
+	}
+}
+
+// c13SweepFont: a tiny font whose section offsets are steered by the string lengths
+func c13SweepFont(r *Rng, lens [5]int, nFD int, variant int) *c13Font {
+	f := &c13Font{name: strings.Repeat("N", lens[0]), ulPos: -100, ulThick: 50, full: true}
+	for j, ch := range []string{"x", "c", "F", "v"} {
+		// Notice, Copyright, FullName, Version
+		idx := []int{1, 2, 3, 0}[j]
+		f.strs[idx] = strings.Repeat(ch, lens[j+1])
+	}
+	f.widths = []float64{500}
+	f.fds = []int{0}
+	np := 1
+	if nFD > 0 {
+		f.isCID = true
+		np = nFD
+		f.ros = [2]string{"Adobe", "Identity"}
+		f.cids = []int{0}
+		f.fm = [6]float64{1, 0, 0, 1, 0, 0}
+	} else {
+		f.names = []string{".notdef"}
+		f.fm = [6]float64{0.001, 0, 0, 0.001, 0, 0}
+	}
+	for p := 0; p < np; p++ {
+		q := c13Priv{bs: 7, bf: 1, bscale: 0.039625}
+		switch (variant + p) % 3 {
+		case 0:
+			q.bv = []int{-10, 0, 700, 710}
+			q.vw = 80
+		case 1:
+			q.bv = []int{-12, 0, 480, 492, 690, 702}
+			q.ob = []int{-210, -200}
+			q.hw, q.vw = 40, 90
+			q.forceBold = true
+		}
+		f.privs = append(f.privs, q)
+		if f.isCID {
+			f.fms = append(f.fms, [6]float64{0.001, 0, 0, 0.001, 0, 0})
+		}
+	}
+	return f
+}
+
+// the offset fixed point of Write: sweeps of string lengths such that every section offset crosses
+// the DICT operand-size thresholds 107/108, 1131/1132 and 32767/32768
+func c13GenOffsetSweep(c *Ctx) {
+	r := c.Rng
+	thorough := c.Tier == "thorough"
+	emit := func(lens [5]int, nFD, variant int, label string) {
+		f := c13SweepFont(r, lens, nFD, variant)
+		c.Stat("offset_sweep", label)
+		c13EmitFont(c, f, r.Chance(1, 8))
+	}
+	kinds := []int{0, 0, 1, 2, 3} // number of FDs; 0 = simple font
+	// (a) FontName 1..127 x Notice 0..60, one glyph
+	for a := 1; a <= 127; a++ {
+		for b := 0; b <= 60; b++ {
+			sum := a + b
+			take := thorough
+			if !take {
+				switch {
+				case sum >= 70 && sum <= 80:
+					take = (a*7+b*3+int(r.U64()%5))%5 == 0 || r.Chance(1, 6)
+				case sum >= 40 && sum <= 110:
+					take = r.Chance(1, 25)
+				default:
+					take = r.Chance(1, 120)
+				}
+			}
+			if !take {
+				continue
+			}
+			lab := "name x notice, sum other"
+			if sum >= 70 && sum <= 80 {
+				lab = "name x notice, sum 70..80"
+			}
+			emit([5]int{a, b, 0, 0, 0}, 0, 0, lab)
+			if thorough && (a+b)%4 == 0 || !thorough && r.Chance(1, 3) {
+				emit([5]int{a, b, 0, 0, 0}, Pick(r, []int{1, 2, 3}), r.Intn(3), lab+" (CID)")
+			}
+		}
+	}
+	// (b) every total in a window: the first threshold for all kinds and private DICT variants
+	for total := 20; total <= 140; total++ {
+		if !thorough && !(total >= 55 && total <= 100) && !r.Chance(1, 4) {
+			continue
+		}
+		for _, nFD := range kinds {
+			if !thorough && !r.Chance(1, 2) {
+				continue
+			}
+			a := r.Range(1, min(127, total))
+			rest := total - a
+			b := r.Range(0, rest)
+			cc := r.Range(0, rest-b)
+			emit([5]int{a, b, cc, rest - b - cc, 0}, nFD, r.Intn(3), "window 107/108")
+		}
+	}
+	// (c) the second threshold: totals around 1131
+	for total := 900; total <= 1200; total++ {
+		if !thorough && !(total >= 1000 && total <= 1140 && total%2 == int(r.U64()%2)) && !r.Chance(1, 10) {
+			continue
+		}
+		nFD := Pick(r, kinds)
+		a := r.Range(1, 127)
+		rest := total - a
+		b := r.Range(0, rest)
+		emit([5]int{a, b, rest - b, r.Range(0, 3), 0}, nFD, r.Intn(3), "window 1131/1132")
+	}
+	// (d) the third threshold: totals around 32767
+	step := 7
+	if thorough {
+		step = 1
+	}
+	for total := 32560 + r.Intn(step); total <= 32780; total += step {
+		nFD := Pick(r, kinds)
+		a := r.Range(1, 127)
+		b := r.Range(0, 40)
+		emit([5]int{a, total - a - b, b, 0, 0}, nFD, r.Intn(3), "window 32767/32768")
 	}
 }
